@@ -93,6 +93,12 @@ claim("C13",
       "TLA+ outcome protocol + TLC-enumerated fault plans / argument classes executed on the real binary; every run validated by TLC", "DESIGN.md 5/C13")
 
 
+claim("C14",
+      "Trace_Env keeps a memo per input: the first run fixes the answer, every later run of the same input under another TZ / locale / working directory / set of unrelated variables / process must reproduce it, and runs that carry a calendar instant must start with the UTC date given by Calendar.tla (so the first observation cannot itself be wrong). ~250 inputs (CalVer presets, ts() components and format_timestamp templates within +-14 h of day / month / year boundaries, branch hashes, non-ASCII names, stdin RON, render / check, three git repositories with absolute and relative -C) are run with the real binary under the environment matrix.",
+      "250 inputs x 8 (quick) / 60 (thorough) environments. Only C / C.UTF-8 / POSIX locales exist on the image.",
+      "TLA+ memo specification; recorded process runs under an environment matrix validated by TLC", "DESIGN.md 5/C14")
+
+
 def main():
     m = {
         "version": 1,
